@@ -4,7 +4,7 @@
 From Coq Require Import List NArith ZArith Strings.Byte.
 From Flocq Require Import IEEE754.Binary IEEE754.Bits.
 From Muscle Require Import Gen.Consts Msg.MsgDefs Msg.MsgModel Flt.FltModel Flt.FltArchive Flt.FltParse
-  Flt.FltProofs Flt.FltArchiveProofs Flt.FltDocProofs Flt.FltNumProofs Flt.FltParseProofs Flt.FltParseStruct Flt.FltIeee.
+  Flt.FltProofs Flt.FltArchiveProofs Flt.FltDocProofs Flt.FltNumProofs Flt.FltParseProofs Flt.FltParseStruct Flt.FltLexProofs Flt.FltIeee.
 Import ListNotations.
 Local Open Scope N_scope.
 
@@ -222,6 +222,28 @@ Theorem C14_parser_builds_denoted_tree_operand : forall atof d2f o,
 Proof. exact parse_operand. Qed.
 Print Assumptions C14_parser_builds_denoted_tree_operand.
 
+(* the lexer reads back the printed token sequence (one blank after every token) *)
+Theorem C14_lexer_reads_printed_tokens : forall ts fuel,
+  Forall tok_ok ts -> (length (print ts) < fuel)%nat -> lex_all fuel (print ts) = (ts, None).
+Proof. exact lex_print. Qed.
+Print Assumptions C14_lexer_reads_printed_tokens.
+
+(* parse_print, on strings: the printed form of an expression of the documented grammar is parsed into the filter the
+   grammar denotes (None exactly when the denotation is an error) *)
+Theorem C14_parse_print : forall atof d2f b,
+  wf_body b -> Forall tok_ok (toks_body b) -> Forall (fun c => c < 256) (print (toks_body b)) ->
+  parse_expr atof d2f (bytes_of (print (toks_body b))) =
+  match den_body atof d2f b with Ok f => Some f | _ => None end.
+Proof. exact parse_print_body. Qed.
+Print Assumptions C14_parse_print.
+
+Theorem C14_parse_print_operand : forall atof d2f o,
+  wf_op o -> Forall tok_ok (toks_op o) -> Forall (fun c => c < 256) (print (toks_op o)) ->
+  parse_expr atof d2f (bytes_of (print (toks_op o))) =
+  match den_op atof d2f o with Ok f => Some f | _ => None end.
+Proof. exact parse_print_operand. Qed.
+Print Assumptions C14_parse_print_operand.
+
 (* ================= non-vacuity: the premises are satisfiable by non-trivial instances *)
 Example C14_wf_example :
   wf_filter (FAnd (LCons (FNum (KNum NFloat) [x61] 2 4 0 [x00; x00; xc0; x7f] [x00; x00; x00; x00] (Some [x00; x00; x00; x80]))
@@ -251,6 +273,25 @@ Example C14_wf_body_example :      (* ( a == 1 ) && !( b < 2 ) *)
              (OGroup false (BLeaf false [user_tok [97] false; fixed_tok c_LTOKEN_EQ; user_tok [49] false]))
              (OCons (OGroup true (BLeaf false [user_tok [98] false; fixed_tok c_LTOKEN_LT; user_tok [50] false])) ONil)).
 Proof. cbn. repeat split; try reflexivity; try discriminate; repeat constructor. Qed.
+
+Example C14_lexable_examples :       (* age  eyecolor  21  150.0f *)
+  lexable [97; 103; 101] /\ lexable [101; 121; 101; 99; 111; 108; 111; 114] /\ lexable [50; 49] /\ lexable [49; 53; 48; 46; 48; 102].
+Proof. repeat split; apply lexable_of_chars; try discriminate; try reflexivity; intros rest; reflexivity. Qed.
+
+Example C14_parse_print_example :    (* ( age >= 21 ) && ! ( eyecolor == "green" ) *)
+  let b := BConj c_LTOKEN_AND
+             (OGroup false (BLeaf false [user_tok [97; 103; 101] false; fixed_tok c_LTOKEN_GEQ; user_tok [50; 49] false]))
+             (OCons (OGroup true (BLeaf false [user_tok [101; 121; 101; 99; 111; 108; 111; 114] false; fixed_tok c_LTOKEN_EQ;
+                                               user_tok [103; 114; 101; 101; 110] true])) ONil) in
+  wf_body b /\ Forall tok_ok (toks_body b) /\ Forall (fun c => c < 256) (print (toks_body b)).
+Proof.
+  cbv zeta. split; [|split].
+  - cbn. repeat split; try reflexivity; try discriminate; repeat constructor.
+  - destruct C14_lexable_examples as [L1 [L2 [L3 _]]].
+    cbn [toks_body toks_op toks_rest neg_toks app].
+    repeat (apply Forall_cons || apply Forall_nil); try (unfold tok_ok; cbn; repeat split; reflexivity); assumption.
+  - vm_compute. repeat (apply Forall_cons || apply Forall_nil); reflexivity.
+Qed.
 
 Example C14_unknown_op_example : c_NQF_NUM_NUMERIC_OPERATORS <= 200 /\ c_SQF_NUM_STRING_OPERATORS <= 200.
 Proof. split; vm_compute; discriminate. Qed.
